@@ -86,6 +86,13 @@ def gen_cases(tier, seed):
         for s0 in range(0, n + 1, 2 if tier == 'quick' else 1):
             yield {'name': name, 'program': prog, 'drain': True, 'probe': False, 'barrage': False, 'listener': True,
                    'plan': plans.uniq([{'at': s0, 'act': ['pause', 'p']}, {'at': 'q', 'act': ['abort_task']}, {'at': 'q+', 'act': ['play']}, {'at': 'q', 'act': ['restart_task']}], 'w%d' % s0)}
+        # ... or the instance is lost at that very moment (whoever gave up stepping the paused process wrote a checkpoint before the
+        # cancellation was delivered) and the process goes on in a new instance recreated from that checkpoint, stepped by a new task
+        for s0 in range(0, n + 1, 2 if tier == 'quick' else 1):
+            for tail in ([['play']], [['resume', ['v']], ['play']]):
+                yield {'name': name, 'program': prog, 'drain': True, 'probe': False, 'barrage': False, 'listener': True,
+                       'plan': plans.uniq([{'at': s0, 'act': ['pause', 'p']}, {'at': 'q', 'act': ['abort_task']}, {'at': 'q+', 'act': ['reincarnate']}]
+                                          + [{'at': 'q', 'act': a} for a in tail], 'x%d' % s0)}
         # a process class that keeps its status message in a store of its own (the public accessors overridden): K <= 2 plans
         for j, plan in enumerate(list(plans.all_placements(n, ALPHABET, 1)) + [p for p in plans.all_placements(n, ALPHABET, 2) if _relevant(p)][::3]):
             yield {'name': name, 'program': prog, 'plan': plans.uniq(plan, 'o%d' % j), 'drain': True, 'probe': False, 'barrage': False, 'listener': True,
